@@ -26,3 +26,28 @@ for st,out in E.explore(body,max_paths=50,timeout=30):
     want=('{:,}'.format(vc), f"{vc:03d}-{sc}", '{0}/{1:5d}'.format(sc,vc)); got=E.model_val(mdl,r)
     if got!=want: bad+=1; print('MISMATCH',vc,sc,got,want)
 print('format model paths',n,'bad',bad)
+
+# '%08X%06X' % (a, b) with symbolic ints (meid): zero-padded hexadecimal rendering
+src2 = '''
+def g(a, b):
+    return '%08X%06X' % (a, b), '%04x' % b
+'''
+open(d+'/fm2.py','w').write(src2)
+m2=E.load_file('fm_test2', d+'/fm2.py')
+def body2():
+    a=E.symint('a',0,2**32-1); b=E.symint('b',0,70000)
+    return a,b,m2.g(a,b)
+n2=0
+for st,out in E.explore(body2,max_paths=50,timeout=60):
+    if st is None: break
+    if out[0]!='ret': print(out); continue
+    # several witnesses per path
+    for extra in ([], [E.zint(out[1][0]) > 0xABCDEF], [E.zint(out[1][1]) > 0x9fff]):
+        mdl=st.witness_model(extra=extra)
+        if mdl is None: continue
+        n2+=1
+        a,b,r=out[1]; ac=E.model_val(mdl,a); bc=E.model_val(mdl,b)
+        want=('%08X%06X' % (ac,bc), '%04x' % bc); got=E.model_val(mdl,r)
+        if got!=want: bad+=1; print('MISMATCH hex',ac,bc,got,want)
+print('hex format model witnesses',n2,'bad',bad)
+sys.exit(1 if bad else 0)
